@@ -237,6 +237,10 @@ func oracleFor(stmt anko.Stmt, extraStrs []string, extraFloats []float64) string
 	for _, f := range extraFloats {
 		floats[math.Float64bits(f)] = true
 	}
+	// values every arithmetic program can reach
+	for _, f := range []float64{math.Inf(1), math.Inf(-1), math.NaN(), 0, math.Copysign(0, -1), 1, -1} {
+		floats[math.Float64bits(f)] = true
+	}
 	var sk []string
 	for s := range strs {
 		sk = append(sk, s)
